@@ -166,4 +166,72 @@ def run():
             c = [e for e in p.events if e.kind == "call" and re.search(r"Semaphore::release$", e.callee)]
             return z3.BoolVal(len(c) == 1)
         rep.add(oblig.check_paths(eng, ps, "%s::drop releases exactly once" % prog.impl_info(f)[1], prop, oblig.fnames(eng), key="semaphore:drop"))
+    try:
+        users(rep, ctx)
+    except Inconclusive as e:
+        o = Obligation("users of the semaphore", "E2 mirsym/z3")
+        o.verdict, o.detail = "inconclusive", str(e)
+        rep.add(o)
     return rep
+
+
+def users(rep, ctx):
+    """the users named by the property: the hashing task holds an open-file permit (RLIMIT_OPEN_FILES) and its task-throttle permit for
+    the whole call of the hash function - otherwise open files are bounded by the thread count, not by the budget"""
+    from obligations.C03 import TASK_LEAVES
+    from mirsym import Agg, Lazy, ListV
+    prog = ctx.lib
+    rh = prog.find(r"^(group::)?rehash$")
+    tk, span, caps = oblig.spawned_task(prog, rh)
+    lists = [i for i, (nme, ty) in enumerate(caps) if "Vec<" in ty and "HashedFileInfo" in ty]
+    guards = [nme for nme, ty in caps if "SemaphoreGuard" in ty]
+    if len(lists) != 1:
+        raise Inconclusive("captures of the rehash task closure not identified")
+    eng = oblig.engine(prog, unroll=3, inline=oblig.module_inliner(prog, "group.rs", TASK_LEAVES))
+    fields = {i: (ListV([Lazy("m0", "HashedFileInfo")]) if i == lists[0] else Lazy("cap_" + nme, "?")) for i, (nme, ty) in enumerate(caps)}
+    qs = eng.run(tk, args=[Agg(span, fields)])
+
+    def prop(p):
+        evs = list(p.events)
+        calls = [i for i, e in enumerate(evs) if e.kind == "call" and re.search(r"Fn(Mut|Once)?(<.*>)?>::call|<dyn .*Fn\(", e.callee)]
+        if not calls:
+            return None
+        k0, k1 = calls[0], calls[-1]
+        acq = [(i, e) for i, e in enumerate(evs) if e.kind == "call" and re.search(r"Semaphore::access_owned$|Semaphore::access$", e.callee) and i < k0]
+        held = False
+        for i, e in acq:
+            from_limit = any(ev.kind == "call" and "RLIMIT_OPEN_FILES" in repr(ev.args) + ev.callee and (ev.ret is e.args[0] or True) for ev in evs[:i])
+            drops = [j for j, d in enumerate(evs) if j > i and d.args and any(a is e.ret for a in d.args) and (d.kind == "drop" or d.callee.endswith("mem::drop"))]
+            if from_limit and (not drops or min(drops) > k1):
+                held = True
+        throttle_ok = True
+        for g in guards:
+            early = [j for j, d in enumerate(evs) if j < k1 and d.args and any(getattr(a, "name", None) == "cap_" + g for a in d.args)
+                     and (d.kind == "drop" or d.callee.endswith("mem::drop"))]
+            throttle_ok = throttle_ok and not early
+        return z3.BoolVal(bool(held and throttle_ok and bool(guards)))
+    o = oblig.check_paths(eng, qs, "rehash task: an open-file permit and the task-throttle permit are held for the whole call of the hash function",
+                          prop, oblig.fnames(eng), bounds="id-group of 1 path, loop unrolled 3", key="semaphore:users:rehash-task",
+                          allow=("return", "panic", "diverge"))
+    if o.verdict == "violated":
+        # native: the real rehash with a hash function that looks at the open-file semaphore (replay/group_test.rs)
+        import sys
+        from common import VERIF, copy_repo, scratch_root
+        sys.path.insert(0, os.path.join(VERIF, "replay"))
+        try:
+            import native_driver
+            src = copy_repo("group-replay-src")
+            drv = native_driver.NativeDriver(src, scratch_root(), [("semaphore", "sem_peek.rs", "verif_sem_peek"), ("group", "group_test.rs", "verif_group_test")])
+            out = drv.run("group::verif_group_test::verif_group_driver", ["PERMIT"], "permit")
+            m = re.match(r"held (-?\d+)", out[0]) if out else None
+            if m and int(m.group(1)) < 1:
+                o.stats["traces_validated"] = 1
+                o.cex = dict(o.cex or {}, native="real rehash: %s open-file permits held while the hash function runs" % m.group(1))
+                o.detail += "; replayed natively: the real rehash holds %s open-file permits while its hash function runs (at least 1 expected)" % m.group(1)
+            else:
+                o.verdict = "inconclusive"
+                o.detail += "; native run: %s" % (out[:1],)
+        except Exception as ex:   # noqa
+            o.verdict = "inconclusive"
+            o.detail += "; native driver: %s" % str(ex)[-200:]
+    rep.add(o)
